@@ -222,8 +222,9 @@ def run(ctx):
     yrs = [1900, 1901, 1902, 1903, 1904, 1905, 1999, 2000, 2001, 9998, 9999]
     ctx.pmap(work_months, [([y], shifts) for y in yrs], timeout=6000)
     ctx.pmap(work_seconds, [(s, min(s + 5400, 86400), 0) for s in range(0, 86400, 5400)], timeout=3000)
-    if ctx.thorough:
-        ctx.pmap(work_seconds, [(s, min(s + 5400, 86400), 45000) for s in range(0, 86400, 5400)], timeout=3000)
+    # the same seconds on top of a date part (the rounding guard must survive a large integer part)
+    for day in ([45000, 36526, 2958464] if ctx.thorough else [45000]):
+        ctx.pmap(work_seconds, [(s, min(s + 5400, 86400), day) for s in range(0, 86400, 5400)], timeout=3000)
     ctx.pmap(work_yearfrac, [(0,)], timeout=3000)
     ctx.pmap(work_range, [(0,)], timeout=600)
     ctx.sample(dict(state=[60, 1900, 2, 29, 4], note='serial 60 is the fictitious 1900-02-29'))
